@@ -76,6 +76,7 @@ def generate(ck):
     descs.append({"cls": "single", "table": {"kind": "synthetic", "family": "const-diffusivity", "prm": [0.3, 0.6, 0.2], "n": 200, "p_lo": 50.0, "p_hi": 9000.0, "grid": "uniform", "seed": 0}, "p_i": 8000.0, "p_f": 7999.2, "r": 34, "t_end": 2.0, "huge": True})
     descs.append(dict(descs[0], with_fluid=True))
     descs.append(dict(descs[1], own_alpha=0.55, t_end=3.0))
+    descs.append({"cls": "single", "table": {"kind": "synthetic", "family": "zlin", "prm": [0.6, 0.7, 0.5], "n": 200, "p_lo": 50.0, "p_hi": 9000.0, "grid": "uniform", "seed": 0}, "p_i": 8000.0, "p_f": 2000.0, "r": 8, "t_end": 4.0, "own_alpha": 0.0, "alpha_units": 3e-15})
     descs.append(dict(descs[0], decoy=True, t_end=5.0))
     descs.append(dict(descs[3], decoy=True, t_end=4.0))
     n = 2 if ck.tier == "quick" else 200
@@ -143,13 +144,14 @@ def run_case(ck, desc):
     else:
         tab = tables.from_desc(desc["table"])
         p_i, p_f = desc["p_i"], desc["p_f"]
-        if desc.get("own_alpha"):
+        if desc.get("own_alpha") is not None:
             # the table in its OTHER documented form - the user's own diffusivity column next to a pseudopressure
             # column - with that pseudopressure referenced to a pressure between p_f and p_i: m = 1 at p_i, NEGATIVE at
             # the fracture face, and a scaled drawdown m_i - m_f ABOVE ONE (recovery in these units exceeds 1 too)
             pr_, mp_ = np.asarray(tab["pressure"], dtype=float), np.asarray(tab["pseudopressure"], dtype=float)
             ref_p = p_f + float(desc["own_alpha"]) * (p_i - p_f)
-            tab = {"pressure": pr_, "pseudopressure": mp_ - float(np.interp(ref_p, pr_, mp_)), "alpha": 1.0 / (np.asarray(tab["compressibility"], dtype=float) * np.asarray(tab["viscosity"], dtype=float))}
+            # (the diffusivity column in the caller's units: m^2/s for a shale is ~1e-9, ft^2/day ~1e5 - only alpha / alpha_i enters)
+            tab = {"pressure": pr_, "pseudopressure": mp_ - float(np.interp(ref_p, pr_, mp_)), "alpha": float(desc.get("alpha_units", 1.0)) / (np.asarray(tab["compressibility"], dtype=float) * np.asarray(tab["viscosity"], dtype=float))}
         with warnings.catch_warnings():
             warnings.simplefilter("ignore")
             fluid = FlowProperties(tab, p_i)
